@@ -294,3 +294,51 @@ def synthmark(repo):
     res.samples = [f"{ncalls} _mark_as_synthetic calls, none on a node whose location was restored"]
     res.analysed = [SYN]
     return res
+
+
+def aliasattr(repo):
+    """R-ALIASATTR (C06): an anonymous `bits:` field is rewritten into a hidden field (always `[text_output: "Skip"]`) plus
+    one alias per member, and it is the alias that text output prints.  What the user wrote on the member and that
+    governs text output therefore has to be carried to the alias: inside the member loop of _add_anonymous_aliases the
+    new Field takes the member's name, its abbreviation, and its text_output attribute (a statement that appends to the
+    alias's `attribute` list from `<member>.attribute`, selected by attributes.TEXT_OUTPUT)."""
+    res = RuleResult("R-ALIASATTR")
+    m = repo.mod("compiler/front_end/synthetics.py")
+    fs = [f for f in m.top_funcs() if f.name == "_add_anonymous_aliases"]
+    if not fs:
+        raise AnalysisError("synthetics._add_anonymous_aliases not found")
+    f = fs[0]
+    loop = None
+    for n in walk_no_nested_funcs(f.node):
+        if isinstance(n, ast.For) and isinstance(n.target, ast.Name) and ast.unparse(n.iter).endswith("structure.field") \
+                and any(isinstance(x, ast.Call) and (call_name(x) or "").endswith("ir_data.Field") for x in ast.walk(n)):
+            loop = n
+    if loop is None:
+        raise AnalysisError("_add_anonymous_aliases: the loop creating one alias per member was not found")
+    mem = loop.target.id
+    alias = None
+    for n in ast.walk(loop):
+        if isinstance(n, ast.Assign) and isinstance(n.value, ast.Call) and (call_name(n.value) or "").endswith("ir_data.Field") \
+                and isinstance(n.targets[0], ast.Name):
+            alias = n.targets[0].id
+            ctor = n.value
+    if alias is None:
+        raise AnalysisError("_add_anonymous_aliases: alias construction not found")
+    body = ast.unparse(loop)
+    res.instances = 3
+    if not any(k.arg == "name" and mem in ast.unparse(k.value) for k in ctor.keywords):
+        res.add(f"{m.rel}|_add_anonymous_aliases|name", "the alias does not take the member's name", m.rel, ctor.lineno, f.name)
+    if not re.search(r"builder\(" + alias + r"\)\.abbreviation\.CopyFrom\(\s*" + mem + r"\.abbreviation", body):
+        res.add(f"{m.rel}|_add_anonymous_aliases|abbreviation", "the alias does not take the member's abbreviation", m.rel, ctor.lineno, f.name)
+    carried = False
+    for n in ast.walk(loop):
+        if isinstance(n, ast.For) and ast.unparse(n.iter) == f"{mem}.attribute":
+            t = ast.unparse(n)
+            if "TEXT_OUTPUT" in t and re.search(alias + r"\.attribute\.(append|extend)\(", t):
+                carried = True
+    if not carried:
+        res.add(f"{m.rel}|_add_anonymous_aliases|text_output", f"the aliases created for the members of an anonymous bits do not inherit "
+                f"`[text_output: ...]` from `{mem}.attribute`: `[text_output: \"Skip\"]` on such a member is accepted and ignored (the "
+                "hidden bits field is skipped, the alias is printed)", m.rel, ctor.lineno, f.name)
+    res.analysed = [m.rel]
+    return res
